@@ -444,7 +444,68 @@ def reuse_case(ctx, case):
         ctx.nt('reuse', tuple(vs), x, y, z)
 
 
-COMPONENTS = {'reuse': reuse_case, 'layout': layout_case,
+def via_connection_case(ctx, case):
+    """The statement is about "the connection's protocol": a packet with a
+    Position field written through Connection.write_packet goes out in the
+    layout of THAT connection, whatever context the packet object carried
+    before (built with context=..., or already written on a connection of
+    another version).  case {version, other, xyz, how: 'kw'|'attr'|'none',
+    queued: bool}"""
+    from vlib import vnet, servers
+    from minecraft.networking.connection import ConnectionContext
+    from minecraft.networking.packets import Packet
+    from minecraft.networking.types import Position
+    v, other = case['version'], case['other']
+    x, y, z = case['xyz']
+    ctx.ev()
+    cls = type('PosPacket', (Packet,), {
+        'id': 0x7A, 'packet_name': 'pos probe',
+        'definition': [{'location': Position}]})
+    srv = servers.Server({'version': v, 'login': [('success',)],
+                          'play': {'bursts': [], 'end': 'silent'}})
+    world = vnet.World(servers=[srv])
+    with vnet.installed(world):
+        conn, o = servers.make_connection(world, allowed_versions={v})
+        try:
+            conn.connect()
+            for _ in range(2000):
+                if world.links and world.links[0].script.play_started:
+                    break
+                import time as _t
+                _t.sleep(0.001)
+            if not world.wait_idle(world.links[0], conn):
+                from vlib.core import HarnessError
+                raise HarnessError('C04 via_connection: login did not '
+                                   'settle')
+            oc = ConnectionContext(protocol_version=other)
+            if case['how'] == 'kw':
+                pk = cls(context=oc, location=Position(x, y, z))
+            else:
+                pk = cls(location=Position(x, y, z))
+                if case['how'] == 'attr':
+                    pk.context = oc
+            conn.write_packet(pk, force=not case.get('queued'))
+            world.wait_idle(world.links[0], conn)
+            conn.disconnect()
+            world.settle()
+        except Exception as e:
+            if type(e).__name__ == 'HarnessError':
+                raise
+            ctx.fail('via_connection', 'P1-write-raises', case, exc=e)
+            return
+    lay = required_layout(v) or probe_layout(v)
+    want = wire.position_word(x, y, z, lay == 'new').to_bytes(8, 'big')
+    got = [pl for pid, pl in srv.other_play_frames if pid == 0x7A]
+    if got != [want]:
+        ctx.fail('via_connection', 'P1-layout-of-the-connection', case,
+                 [g.hex() for g in got], [want.hex()])
+        return
+    if required_layout(v) != required_layout(other) and y != z:
+        ctx.nt('via', v, other, x, y, z, case['how'])
+
+
+COMPONENTS = {'via_connection': via_connection_case,
+              'reuse': reuse_case, 'layout': layout_case,
               'switch': switch_case,
               'position': position_case, 'word': word_case,
               'section': section_case, 'record': record_case,
@@ -601,11 +662,40 @@ def t_random(ctx, n):
     hyp(ctx, 'random', strat, body, n)
 
 
+def t_via_connection(ctx, n):
+    import minecraft
+    sup = list(minecraft.SUPPORTED_PROTOCOL_VERSIONS)
+    xyz = (1200, 65, -420)
+    k = 0
+    for v in (47, 340, 404, 477, 498, 757):
+        for other in (47, 404, 477, 757):
+            if other == v:
+                continue
+            k += 1
+            via_connection_case(ctx, {
+                'version': v, 'other': other, 'xyz': xyz,
+                'how': ['kw', 'attr', 'none'][k % 3], 'queued': bool(k % 2)})
+    coord = st.tuples(st.integers(-2 ** 25, 2 ** 25 - 1),
+                      st.integers(-2 ** 11, 2 ** 11 - 1),
+                      st.integers(-2 ** 25, 2 ** 25 - 1))
+    strat = st.fixed_dictionaries({
+        'version': st.sampled_from(sup), 'other': st.sampled_from(sup),
+        'xyz': coord, 'how': st.sampled_from(['kw', 'attr', 'none']),
+        'queued': st.booleans()})
+
+    def body(c, case):
+        via_connection_case(c, case)
+        if c.evaluations % 40 == 1:
+            c.sample(case, 'via_connection')
+    hyp(ctx, 'via_connection', strat, body, n)
+
+
 def tasks(tier):
     q = tier == 'quick'
     n = len(known_protocols())
     tl = [('switch', t_switch, {}), ('sections_records',
-                                     t_sections_records, {})]
+                                     t_sections_records, {}),
+          ('via_connection', t_via_connection, dict(n=60 if q else 1500))]
     nsh = 14
     for i in range(nsh):
         tl.append(('versions_%d' % i, t_versions,
